@@ -1,0 +1,64 @@
+//go:build verif
+
+package priority
+
+// Verification hooks (build tag "verif" only). The scheduling goroutine reports one event after
+// every step of its state machine, together with a snapshot of its private counters, to the
+// function installed in VerifHook at the time New was called. The function may block: this is
+// how a test parks the scheduler between two steps.
+
+// VerifEvent is a snapshot emitted by the scheduling goroutine after a step.
+type VerifEvent struct {
+	Ev         string
+	Priority   uint
+	Flag       bool
+	Actual     map[uint]uint
+	Tactic     map[uint]uint
+	Strategic  map[uint]uint
+	Drained    map[uint]bool
+	Priorities []uint
+}
+
+// VerifHook, if set before New is called, is bound to the created discipline.
+var VerifHook func(ev VerifEvent)
+
+type verifState struct {
+	hook func(ev VerifEvent)
+}
+
+func (dsc *Discipline[Type]) verifBind() {
+	dsc.verif.hook = VerifHook
+}
+
+func verifCopy(src map[uint]uint) map[uint]uint {
+	dst := make(map[uint]uint, len(src))
+
+	for key, value := range src {
+		dst[key] = value
+	}
+
+	return dst
+}
+
+func (dsc *Discipline[Type]) verifAt(ev string, priority uint, flag bool) {
+	if dsc.verif.hook == nil {
+		return
+	}
+
+	drained := make(map[uint]bool, len(dsc.inputs))
+
+	for key, input := range dsc.inputs {
+		drained[key] = input.Drained
+	}
+
+	dsc.verif.hook(VerifEvent{
+		Ev:         ev,
+		Priority:   priority,
+		Flag:       flag,
+		Actual:     verifCopy(dsc.actual),
+		Tactic:     verifCopy(dsc.tactic),
+		Strategic:  verifCopy(dsc.strategic),
+		Drained:    drained,
+		Priorities: append([]uint(nil), dsc.priorities...),
+	})
+}
